@@ -27,10 +27,10 @@ try:
         os.makedirs(wt + "/tests", exist_ok=True); shutil.copy(src + "/demo_ref.rs", wt + "/tests/seed_demo_ref.rs")
         rc, r = sh("cargo test --offline --test seed_demo_ref 2>&1 | tail -5", wt); ref_ok = "test result: ok" in r
     build_module()
-    rc1, with_p = sh(f"{sys.executable} {src}/demo.py {pyd} 2>&1 | tail -12")
+    rc1, with_p = sh(f"{sys.executable} {src}/demo.py {pyd} 2>&1"); with_p = with_p[-1200:]
     sh("git checkout -- src", wt)
     build_module()
-    rc2, without_p = sh(f"{sys.executable} {src}/demo.py {pyd} 2>&1 | tail -5")
+    rc2, without_p = sh(f"{sys.executable} {src}/demo.py {pyd} 2>&1"); without_p = without_p[-600:]
     ok = suite_ok and ref_ok and rc1 != 0 and rc2 == 0
     print(name, "suite_ok", suite_ok, "rust_ref_ok", ref_ok, "demo_fails_with_patch", rc1 != 0, "demo_passes_without", rc2 == 0)
     if ok:
